@@ -246,5 +246,42 @@ pub fn run(tier: Tier, replay: Option<String>) -> i32 {
         }
     }
     c.extra.insert("flag_types_scanned".into(), json!(adapters.len()));
+    // message-local flag structs: the integer their typed constructors produce is the declared enumerator
+    let synth = synth_adapters();
+    let (mut cases, mut skipped) = (0u64, 0u64);
+    for a in &synth {
+        for case in &a.cases {
+            let (Some(newf), Some(setf)) = (case.new, case.set) else {
+                skipped += 1;
+                continue;
+            };
+            for nsname in a.nss {
+                let Some(ns) = Ns::all().into_iter().find(|n| n.text() == *nsname) else { continue };
+                let Some(d) = u.lookup(ns, a.flag).and_then(|o| o.definer()) else {
+                    c.fail(&format!("c12:synth:{}:flag-not-in-sources", a.path), &format!("{} is built on flag {} which {} does not define", a.path, a.flag, nsname), json!({"type": a.path}));
+                    continue;
+                };
+                let Some(want) = d.members.iter().find(|m| m.name == case.constant).and_then(|m| parse_int(&m.value_text)) else {
+                    c.fail(&format!("c12:synth:{}:{}:enumerator-not-in-sources", a.path, case.method), &format!("constructor {} of {} stands for enumerator {} which flag {} does not declare in {}", case.method, a.path, case.constant, a.flag, nsname), json!({"type": a.path}));
+                    continue;
+                };
+                cases += 1;
+                c.eval();
+                c.nontrivial(vcommon::fnv(format!("synth|{}|{}", a.path, case.method).as_bytes()));
+                for (which, f) in [("new", newf), ("set", setf)] {
+                    let got = std::panic::catch_unwind(f).unwrap_or(i128::MIN);
+                    if got != want {
+                        c.fail(&format!("c12:synth:{}:{}:{}-gives-other-bits", a.path, case.method, which), &format!("{}::{}_{} yields inner {:#x}, the wowm enumerator {}::{} is {:#x} ({})", a.path, which, case.method.split(':').next().unwrap_or(""), got, a.flag, case.constant, want, nsname), json!({"type": a.path, "method": case.method, "got": got.to_string(), "want": want.to_string()}));
+                    }
+                }
+                if c.samples.len() < 10 && cases % 97 == 0 {
+                    c.sample(json!({"type": a.path, "constructor": case.method, "enumerator": case.constant, "value": format!("{:#x}", want)}));
+                }
+            }
+        }
+    }
+    c.extra.insert("message_local_flag_structs_scanned".into(), json!(synth.len()));
+    c.extra.insert("message_local_constructor_cases".into(), json!(cases));
+    c.extra.insert("message_local_constructors_not_constructible_with_default".into(), json!(skipped));
     c.finish()
 }
